@@ -528,7 +528,7 @@ def turns_mc(workdir, name, ops, switches=None, invariants=("InvCore", "InvRest"
 
 REPAIRED = dict(DeleteDrainsMailbox=True, ClosedMeansNotFound=True, PullWatchesDeleted=True, AttachDetached=True,
                 PullHandsOnWakeup=True, SecondDeleteWaits=True, ExitDrainsGranted=True,
-                NoRenotifyAfterPartialPull=False, SignalCreatedAfterPull=False, PostDoesNotNotify=False)
+                RemoveSendOutsideDrainLoop=False, NoRenotifyAfterPartialPull=False, SignalCreatedAfterPull=False, PostDoesNotNotify=False)
 
 
 def actors_mc(workdir, name, procs, subs=("s1",), cap=2, switches=None, invariants=(), allow_cancel=(),
